@@ -124,8 +124,8 @@ def run(ctx):
         vlib.selftest_rejects(ctx, sd, "Trace_Throttler", "Trace_ThrottlerObs.cfg", pa, admit_when_full)
     ctx.cov(rule="schedules = interleavings of the CanProcess / StartProcessing / EndProcessing calls of 2-3 concurrent messages "
                  "generated by TLC from Throttler.tla (one per transition of the state graph): 2 threads x every branch of "
-                 "SingleDataInterceptor / MultiDataInterceptor / TxResolver.ProcessReceivedMessage (28 message classes: "
-                 "rejected before the throttler, every early return after StartProcessing, asynchronous completion, "
+                 "SingleDataInterceptor / MultiDataInterceptor / TxResolver.ProcessReceivedMessage (60 path x message-class combinations: "
+                 "rejected before the throttler, every early return after StartProcessing incl. wrong version / wrong chain ID / not-eligible / blacklisting branches and two-element batches with the failing element first or last, asynchronous completion, "
                  "preferred-peer and self messages), and 3 threads x a small class set with max 1 and 2; each schedule is "
                  "executed on the real callers sharing one real NumGoRoutinesThrottler through gating decorators; the number "
                  "of admitted running tasks is compared with max after every StartProcessing and the counter is measured at "
